@@ -533,14 +533,14 @@ Section Canon.
 
   Lemma val_of_param : forall s ex t v,
     In s opts -> a_extra s = Some ex -> param_ok ex (t, v) = true -> argP (t, v) ->
-    val_arg d (a_name s) (has_string_ex (ex_type ex)) v (t, v).
+    val_arg [32%N] d (a_name s) (has_string_ex (ex_type ex)) v (t, v).
   Proof.
     intros s ex t v Hs Hex Hpo (Hpr & _). destruct (TC1 s ex Hs Hex) as (Hnt & Hnum).
     unfold param_ok in Hpo. cbn [fst] in Hpo. apply andb_true_iff in Hpo as [Hty _].
     destruct t; destruct v as [x|l|n0|ns0]; cbn in Hpr; try contradiction.
     - congruence.
     - destruct Hpr as [Hpr|(Hk & Hm)]; [apply va_string; exact Hpr|apply va_ml; [exact Hk|exact Hm|exact Hty]].
-    - destruct Hpr as (Hne & Hall). apply va_list; [exact Hne|exact Hall|apply plain_opt; exact Hs].
+    - destruct Hpr as (Hne & Hall). apply va_list; [reflexivity|exact Hne|exact Hall|apply plain_opt; exact Hs].
     - apply va_number; [exact Hpr|apply Hnum; exact Hty].
   Qed.
 
@@ -548,8 +548,8 @@ Section Canon.
     Inv am1 em1 -> (forall s, In s os -> In s opts) ->
     (forall s, In s os -> assoc_get (a_name s) am = assoc_get (a_name s) am1 /\
                           assoc_get (a_name s) em = assoc_get (a_name s) em1) ->
-    slots_args d am em rest_slots rest_args ->
-    slots_args d am em (os ++ rest_slots) (canon_opts am1 em1 os ++ rest_args).
+    slots_args [32%N] d am em rest_slots rest_args ->
+    slots_args [32%N] d am em (os ++ rest_slots) (canon_opts am1 em1 os ++ rest_args).
   Proof.
     intros am em am1 em1 os. induction os as [|s os IH]; intros rs ra HI Hsub Hlk Hrest; [exact Hrest|].
     assert (Hsub' : forall s0, In s0 os -> In s0 opts) by (intros s0 H0; apply Hsub; right; exact H0).
@@ -567,11 +567,11 @@ Section Canon.
       destruct (takes_param s v) as [ex|] eqn:Etp.
       + destruct Hp as ([t pv] & Hep & Hpo & Hpp). rewrite Hep. cbn [snd] in *.
         pose proof (ty_of_pr (t, pv) (proj1 Hpp)) as Hty'. cbn [fst snd] in Hty'. rewrite Hty'. cbn [app].
-        apply (sa_tag_param d am em s (os ++ rs) _ v pv ex (t, pv) Htag); try assumption.
+        apply (sa_tag_param [32%N] d am em s (os ++ rs) _ v pv ex (t, pv) Htag); try assumption.
         * rewrite Le. exact Hep.
         * apply (takes_param_extra _ _ _ Etp).
         * apply val_of_param; [exact Hs|apply (takes_param_extra _ _ _ Etp)|exact Hpo|exact Hpp].
-      + cbn [app]. apply (sa_tag d am em s (os ++ rs) _ v Htag); try assumption.
+      + cbn [app]. apply (sa_tag [32%N] d am em s (os ++ rs) _ v Htag); try assumption.
         left. rewrite Le. exact Hp.
     - cbn [app]. apply sa_absent; [exact La|exact IH].
   Qed.
@@ -579,7 +579,7 @@ Section Canon.
   Lemma slots_reqs : forall am em rs rargs,
     (forall r, In r rs -> In r reqs) ->
     Forall2 (fun r x => req_ok r x L = SelYes /\ assoc_get (a_name r) am = Some (snd x)) rs rargs ->
-    Forall argP rargs -> slots_args d am em rs rargs.
+    Forall argP rargs -> slots_args [32%N] d am em rs rargs.
   Proof.
     intros am em rs rargs Hsub H. induction H as [|r x rs rargs (Hok & Hget) Hr IH]; intro Hp; [constructor|].
     inversion Hp as [|x' l' Hx Hl]; subst.
@@ -599,15 +599,15 @@ Section Canon.
         unfold is_tag_only in *. destruct (a_type r) as [|[] [|y l]]; try discriminate. reflexivity. }
       rewrite Hty in Hvt.
       destruct t; destruct v as [s0|l|n0|ns0]; cbn in Hpr; try contradiction; try (cbn in Hvt; discriminate).
-      apply (sa_tag d am em r rs rargs s0 Etag Hget Hpr); [right; exact Hnoex|exact IH].
-    - apply (sa_pos d am em r rs rargs v (t, v) Etag Hget); [|exact IH].
+      apply (sa_tag [32%N] d am em r rs rargs s0 Etag Hget Hpr); [right; exact Hnoex|exact IH].
+    - apply (sa_pos [32%N] d am em r rs rargs v (t, v) Etag Hget); [|exact IH].
       destruct t; destruct v as [s0|l|n0|ns0]; cbn in Hpr; try contradiction.
       + exfalso. unfold is_valid_type in Hvt. rewrite Etag in Hvt. cbn in Hvt. discriminate.
       + destruct Hpr as [Hpr|(Hk & Hm)]; [apply va_string; exact Hpr|apply va_ml; [exact Hk|exact Hm|]].
         unfold has_string_list. unfold is_valid_type in Hvt. cbn [atype_eqb] in Hvt.
         destruct (atype_mem TyString (a_type r)) eqn:Es; [reflexivity|]. cbn [orb] in Hvt.
         change (atype_eqb TyString TyString) with true in Hvt. cbn [andb] in Hvt. rewrite (TC3 r Hin Hvt) in Es. discriminate.
-      + destruct Hpr as (Hne & Hall). apply va_list; [exact Hne|exact Hall|apply plain_req; exact Hin].
+      + destruct Hpr as (Hne & Hall). apply va_list; [reflexivity|exact Hne|exact Hall|apply plain_req; exact Hin].
       + apply va_number; [exact Hpr|]. apply (TC2 r Hin). unfold is_valid_type in Hvt. cbn in Hvt. rewrite orb_false_r in Hvt. exact Hvt.
   Qed.
 
@@ -639,7 +639,7 @@ Section Canon.
     Forall argP args -> legal_opt (length args) opts reqs args L [] [] = LComplete am em ->
     exists cargs am' em',
       legal_opt (length cargs) opts reqs cargs L [] [] = LComplete am' em' /\ meq am' am /\ meq em' em /\
-      slots_args d am em (opts ++ reqs) cargs /\ Forall argP cargs.
+      slots_args [32%N] d am em (opts ++ reqs) cargs /\ Forall argP cargs.
   Proof.
     intros args am em Hpr H.
     destruct (phase1 (length args) args [] [] am em Inv_nil Hpr (le_n _) H) as (am1 & em1 & rargs & HI & Hreq & Hst & Hrp).
@@ -667,17 +667,17 @@ End Canon.
 (* ---------------------------------------------------------------- on definitions: [legal], and the table conditions *)
 
 Lemma slots_args_meq : forall d am em am' em' defs args,
-  meq am am' -> meq em em' -> slots_args d am em defs args -> slots_args d am' em' defs args.
+  meq am am' -> meq em em' -> slots_args [32%N] d am em defs args -> slots_args [32%N] d am' em' defs args.
 Proof.
   intros d am em am' em' defs args Ma Me H.
   induction H as [|a rest args Ha H IH|a rest args s Ht Ha Hs Hno H IH|a rest args s ev ex p Ht Ha Hs He Hex Hv H IH
                   |a rest args v p Ht Ha Hv H IH].
   - constructor.
   - apply sa_absent; [rewrite <- Ma; exact Ha|exact IH].
-  - apply (sa_tag d am' em' a rest args s Ht); [rewrite <- Ma; exact Ha|exact Hs| |exact IH].
+  - apply (sa_tag [32%N] d am' em' a rest args s Ht); [rewrite <- Ma; exact Ha|exact Hs| |exact IH].
     destruct Hno as [Hn|Hn]; [left; rewrite <- Me; exact Hn|right; exact Hn].
-  - apply (sa_tag_param d am' em' a rest args s ev ex p Ht); [rewrite <- Ma; exact Ha|exact Hs|rewrite <- Me; exact He|exact Hex|exact Hv|exact IH].
-  - apply (sa_pos d am' em' a rest args v p Ht); [rewrite <- Ma; exact Ha|exact Hv|exact IH].
+  - apply (sa_tag_param [32%N] d am' em' a rest args s ev ex p Ht); [rewrite <- Ma; exact Ha|exact Hs|rewrite <- Me; exact He|exact Hex|exact Hv|exact IH].
+  - apply (sa_pos [32%N] d am' em' a rest args v p Ht); [rewrite <- Ma; exact Ha|exact Hv|exact IH].
 Qed.
 
 Fixpoint nodupb (l : list bytes) : bool :=
@@ -738,7 +738,7 @@ Theorem legal_canonical : forall d L args am em,
   legal d L args = LComplete am em ->
   exists cargs am' em',
     legal d L cargs = LComplete am' em' /\ meq am' am /\ meq em' em /\
-    slots_args d am em (d_args d) cargs /\ Forall argP cargs.
+    slots_args [32%N] d am em (d_args d) cargs /\ Forall argP cargs.
 Proof.
   intros d L args am em Hwf Hok Hpr H.
   destruct (d_args d) as [|a0 l0] eqn:Ed.
